@@ -255,7 +255,13 @@ func ruleMergeEvery(c *Ctx) {
 		cc := callOf(in)
 		return cc != nil && cc.StaticCallee() != nil && cc.StaticCallee().String() == "os.Remove"
 	}
-	w := findPath(m, open, func(in ssa.Instruction) bool { return in == ssa.Instruction(open) }, isRemove, nil)
+	// the one segment that may stay is the one that is still the active file (R-MERGE-KEEPACTIVE): the edge on which
+	// the scanned id equals DB.ActiveFile.fileID is not a way of skipping a removal
+	keep := map[succEdge]bool{}
+	for _, e := range activeFileEqualEdges(c, m) {
+		keep[e] = true
+	}
+	w := findPath(m, open, func(in ssa.Instruction) bool { return in == ssa.Instruction(open) }, isRemove, func(b *ssa.BasicBlock, si int) bool { return keep[succEdge{b, si}] })
 	if w == nil {
 		// also make sure the open is inside a loop at all
 		inLoop := blockInCycle(open.Block())
@@ -584,4 +590,85 @@ func ruleMergeKVOnly(c *Ctx) {
 	}
 	c.Sites += n
 	c.minInstances("comparisons of the scan position with an index hint in Merge", n, 2)
+}
+
+// R-MERGE-KEEPACTIVE (C15 C10 C11): Merge never unlinks the segment that is still the active file. The rewrite
+// step moves the active file on to a fresh segment only when it has something to rewrite; if every scanned record
+// is dead, the last listed segment is still DB.ActiveFile when its turn comes. Removing it leaves the database
+// appending to an unlinked file: every later commit that fits in it is gone after the next reopen. Every
+// os.Remove in Merge's per-segment loop must therefore be dominated by the not-equal edge of a comparison with
+// DB.ActiveFile.fileID (directly, or through a one-line predicate that makes that comparison).
+func ruleMergeKeepActive(c *Ctx) {
+	m := c.P.MustFunc("(*DB).Merge")
+	c.touch(m)
+	isActiveID := func(x ssa.Value) bool {
+		fv, base := lastField(stripConv(x))
+		return fv != nil && fv.Name() == "fileID" && base != nil && isFieldLoad(base, "DB", "ActiveFile")
+	}
+	neq := eqEdges(m, false, func(x, y ssa.Value) bool { return isActiveID(x) })
+	// a predicate helper: a module function with a bool result whose body compares with ActiveFile.fileID
+	for _, val := range []bool{true, false} {
+		val := val
+		neq = append(neq, boolEdges(m, val, func(x ssa.Value) bool {
+			call, ok := x.(*ssa.Call)
+			if !ok {
+				return false
+			}
+			cal := call.Call.StaticCallee()
+			if cal == nil || !c.P.inModule(cal) || cal.Blocks == nil {
+				return false
+			}
+			found := false
+			instrs(cal, func(in ssa.Instruction) {
+				if b, ok := in.(*ssa.BinOp); ok && (b.Op == token.EQL && !val || b.Op == token.NEQ && val) && (isActiveID(b.X) || isActiveID(b.Y)) {
+					found = true
+				}
+			})
+			return found
+		})...)
+	}
+	n := 0
+	calls(m, func(ci ssa.CallInstruction) {
+		cc := ci.Common()
+		cal := cc.StaticCallee()
+		if cal == nil || cal.String() != "os.Remove" || !blockInCycle(ci.Block()) {
+			return
+		}
+		n++
+		c.check(len(neq) > 0 && edgesDominate(m, neq, ci.Block()), "(*DB).Merge", fmt.Sprintf("segment removal #%d spares the segment that is still the active file", n), c.P.ipos(ci), "",
+			"the per-segment loop removes every listed segment, the last of which is DB.ActiveFile unless a rewrite moved the active file on: when no scanned record is live (every key deleted or expired) nothing is rewritten, the active segment is unlinked, and the database keeps appending to the unlinked file - commits made after the Merge are gone after the next reopen")
+	})
+	c.Sites += n
+	c.minInstances("segment removals in Merge's loop", n, 1)
+}
+
+// activeFileEqualEdges: edges of f on which a segment id is known to EQUAL DB.ActiveFile.fileID (a direct comparison,
+// or the answer of a predicate helper that makes it).
+func activeFileEqualEdges(c *Ctx, f *ssa.Function) []succEdge {
+	isActiveID := func(x ssa.Value) bool {
+		fv, base := lastField(stripConv(x))
+		return fv != nil && fv.Name() == "fileID" && base != nil && isFieldLoad(base, "DB", "ActiveFile")
+	}
+	out := eqEdges(f, true, func(x, y ssa.Value) bool { return isActiveID(x) })
+	for _, val := range []bool{true, false} {
+		val := val
+		out = append(out, boolEdges(f, val, func(x ssa.Value) bool {
+			call, ok := x.(*ssa.Call)
+			if !ok {
+				return false
+			}
+			cal := call.Call.StaticCallee()
+			if cal == nil || !c.P.inModule(cal) || cal.Blocks == nil {
+				return false
+			}
+			found := false
+			instrs(cal, func(in ssa.Instruction) {
+				if b, ok := in.(*ssa.BinOp); ok && (b.Op == token.EQL && val || b.Op == token.NEQ && !val) && (isActiveID(b.X) || isActiveID(b.Y)) {
+					found = true
+				}
+			})
+			return found
+		})...)
+	}
+	return out
 }
